@@ -789,7 +789,27 @@ func (s *Server) checkTypeMeta(r *Request, u *unstructured.Unstructured) interfa
 	return nil
 }
 
+// pruneNulls drops null-valued map entries recursively, as the API server does for custom resources
+// with a structural schema whose fields are not nullable (apiextensions pruning).
+func pruneNulls(v interface{}) {
+	switch t := v.(type) {
+	case map[string]interface{}:
+		for k, x := range t {
+			if x == nil {
+				delete(t, k)
+				continue
+			}
+			pruneNulls(x)
+		}
+	case []interface{}:
+		for _, x := range t {
+			pruneNulls(x)
+		}
+	}
+}
+
 func cleanMeta(o map[string]interface{}) {
+	pruneNulls(o)
 	md, ok := o["metadata"].(map[string]interface{})
 	if !ok {
 		return
